@@ -25,23 +25,36 @@ package sql
 
 // ---- C06: every pop query on keto_relation_tuples starts from queryWithNetwork
 //@ func (*Persister).queryWithNetwork
-//@   props C06 C13
+//@   props C04 C06 C13
 //@   modifies nothing
 //@   requires p != nil
 //@   ensures result != nil && fresh(result) && qnidset(result) && qnid(result) == netid(p, ctx)
 //@   ensures !qafterset(result) && !qordered(result) && qlimit(result) == -1 && !qraw(result)
+//@   ensures[C04] no-predicate-yet: predfresh(result)
+
+// ---- C04: the WHERE predicate is the query (ghost fields qf_/qv_/qn_/qopaque of pop.spec):
+// each present field of the relation query adds exactly its "<column> = ?" conjunct bound to
+// that field, a subject adds its own columns and IS NULL for the other kind's, and no other
+// fragment is added. predfresh: nothing constrained yet (queryWithNetwork's result).
+//@ spec predfresh(q *pop.Query) bool = !qopaque(q) && !qf_ns(q) && !qf_obj(q) && !qf_rel(q) && !qf_sid(q) && !qf_ssn(q) && !qf_sso(q) && !qf_ssr(q) && !qn_sid(q) && !qn_ssn(q) && !qn_sso(q) && !qn_ssr(q)
+//@ spec predsubject(q *pop.Query, sub relationtuple.Subject) bool = (istype(sub, *relationtuple.SubjectID) ==> qf_sid(q) && qv_sid(q) == as(sub, *relationtuple.SubjectID).ID && qn_ssn(q) && qn_sso(q) && qn_ssr(q) && !qf_ssn(q) && !qf_sso(q) && !qf_ssr(q) && !qn_sid(q)) && (istype(sub, *relationtuple.SubjectSet) ==> qf_ssn(q) && qv_ssn(q) == as(sub, *relationtuple.SubjectSet).Namespace && qf_sso(q) && qv_sso(q) == as(sub, *relationtuple.SubjectSet).Object && qf_ssr(q) && qv_ssr(q) == as(sub, *relationtuple.SubjectSet).Relation && qn_sid(q) && !qf_sid(q) && !qn_ssn(q) && !qn_sso(q) && !qn_ssr(q))
+//@ spec predquery(q *pop.Query, rq *relationtuple.RelationQuery) bool = !qopaque(q) && qf_ns(q) == (rq.Namespace != nil) && (rq.Namespace != nil ==> qv_ns(q) == deref(rq.Namespace)) && qf_obj(q) == (rq.Object != nil) && (rq.Object != nil ==> qv_obj(q) == deref(rq.Object)) && qf_rel(q) == (rq.Relation != nil) && (rq.Relation != nil ==> qv_rel(q) == deref(rq.Relation)) && (rq.Subject != nil ==> predsubject(q, rq.Subject)) && (rq.Subject == nil ==> !qf_sid(q) && !qf_ssn(q) && !qf_sso(q) && !qf_ssr(q) && !qn_sid(q) && !qn_ssn(q) && !qn_sso(q) && !qn_ssr(q))
 
 //@ func (*Persister).whereSubject
-//@   props C06 C07 C13
+//@   props C04 C06 C07 C13
 //@   requires q != nil && (sub == nil || wfsubject(sub))
-//@   modifies qafterset(q), qafter(q)
+//@   modifies qafterset(q), qafter(q), qf_ns(q), qv_ns(q), qf_obj(q), qv_obj(q), qf_rel(q), qv_rel(q), qf_sid(q), qv_sid(q), qf_ssn(q), qv_ssn(q), qf_sso(q), qv_sso(q), qf_ssr(q), qv_ssr(q), qn_sid(q), qn_ssn(q), qn_sso(q), qn_ssr(q), qopaque(q)
 //@   ensures qafterset(q) == old(qafterset(q)) && qafter(q) == old(qafter(q))
+//@   ensures[C04] other-columns-untouched: qf_ns(q) == old(qf_ns(q)) && qv_ns(q) == old(qv_ns(q)) && qf_obj(q) == old(qf_obj(q)) && qv_obj(q) == old(qv_obj(q)) && qf_rel(q) == old(qf_rel(q)) && qv_rel(q) == old(qv_rel(q)) && qopaque(q) == old(qopaque(q))
+//@   ensures[C04] subject-predicate: (result == nil && old(!qf_sid(q) && !qf_ssn(q) && !qf_sso(q) && !qf_ssr(q) && !qn_sid(q) && !qn_ssn(q) && !qn_sso(q) && !qn_ssr(q))) ==> predsubject(q, sub)
+//@   ensures[C04] nil-subject-is-an-error: sub == nil ==> result != nil
 
 //@ func (*Persister).whereQuery
-//@   props C06 C07 C13
+//@   props C04 C06 C07 C13
 //@   requires q != nil && wfquery(rq)
-//@   modifies qafterset(q), qafter(q)
+//@   modifies qafterset(q), qafter(q), qf_ns(q), qv_ns(q), qf_obj(q), qv_obj(q), qf_rel(q), qv_rel(q), qf_sid(q), qv_sid(q), qf_ssn(q), qv_ssn(q), qf_sso(q), qv_sso(q), qf_ssr(q), qv_ssr(q), qn_sid(q), qn_ssn(q), qn_sso(q), qn_ssr(q), qopaque(q)
 //@   ensures qafterset(q) == old(qafterset(q)) && qafter(q) == old(qafter(q))
+//@   ensures[C04] predicate-is-the-query: (result == nil && old(predfresh(q))) ==> predquery(q, rq)
 
 // ---- C07: keyset pagination
 //@ func internalPaginationFromOptions
@@ -51,13 +64,34 @@ package sql
 //@   ensures[C07] page-size: result0.PerPage == (optsize(opts) == 0 ? 100 : optsize(opts)) && result0.PerPage >= 1
 //@   ensures[C07] first-page: opttoken(opts) == "" ==> result1 == nil && result0.LastID == uuid.Nil
 
+// ---- C04: a row and the relationship it stores. subject_id is non-NULL exactly for subject
+// ids; a subject set fills the three subject_set_* columns (an empty relation is a valid value,
+// not NULL); converting a tuple to a row and back gives the tuple.
+//@ spec rowof(r *RelationTuple, t *relationtuple.RelationTuple) bool = r.Namespace == t.Namespace && r.Object == t.Object && r.Relation == t.Relation && (istype(t.Subject, *relationtuple.SubjectID) ==> r.SubjectID.Valid && r.SubjectID.UUID == as(t.Subject, *relationtuple.SubjectID).ID && !r.SubjectSetNamespace.Valid && !r.SubjectSetObject.Valid && !r.SubjectSetRelation.Valid) && (istype(t.Subject, *relationtuple.SubjectSet) ==> !r.SubjectID.Valid && r.SubjectSetNamespace.Valid && r.SubjectSetNamespace.String == as(t.Subject, *relationtuple.SubjectSet).Namespace && r.SubjectSetObject.Valid && r.SubjectSetObject.UUID == as(t.Subject, *relationtuple.SubjectSet).Object && r.SubjectSetRelation.Valid && r.SubjectSetRelation.String == as(t.Subject, *relationtuple.SubjectSet).Relation)
+
 //@ func (*RelationTuple).ToInternal
-//@   props C07 C13
+//@   props C04 C07 C13
 //@   modifies nothing
 //@   ensures r != nil ==> result0 != nil && fresh(result0) && result1 == nil
+//@   ensures[C04] row-to-tuple: r != nil ==> result0.Namespace == r.Namespace && result0.Object == r.Object && result0.Relation == r.Relation && wfsubject(result0.Subject) && (r.SubjectID.Valid ==> istype(result0.Subject, *relationtuple.SubjectID) && as(result0.Subject, *relationtuple.SubjectID).ID == r.SubjectID.UUID) && (!r.SubjectID.Valid ==> istype(result0.Subject, *relationtuple.SubjectSet) && as(result0.Subject, *relationtuple.SubjectSet).Namespace == r.SubjectSetNamespace.String && as(result0.Subject, *relationtuple.SubjectSet).Object == r.SubjectSetObject.UUID && as(result0.Subject, *relationtuple.SubjectSet).Relation == r.SubjectSetRelation.String)
+
+//@ func (*RelationTuple).insertSubject
+//@   props C04 C13
+//@   requires r != nil && (s == nil || wfsubject(s))
+//@   modifies r.SubjectID, r.SubjectSetNamespace, r.SubjectSetObject, r.SubjectSetRelation
+//@   ensures result == nil
+//@   ensures[C04] subject-id-row: (s != nil && istype(s, *relationtuple.SubjectID)) ==> r.SubjectID.Valid && r.SubjectID.UUID == as(s, *relationtuple.SubjectID).ID && !r.SubjectSetNamespace.Valid && !r.SubjectSetObject.Valid && !r.SubjectSetRelation.Valid
+//@   ensures[C04] subject-set-row: (s != nil && istype(s, *relationtuple.SubjectSet)) ==> !r.SubjectID.Valid && r.SubjectSetNamespace.Valid && r.SubjectSetNamespace.String == as(s, *relationtuple.SubjectSet).Namespace && r.SubjectSetObject.Valid && r.SubjectSetObject.UUID == as(s, *relationtuple.SubjectSet).Object && r.SubjectSetRelation.Valid && r.SubjectSetRelation.String == as(s, *relationtuple.SubjectSet).Relation
+
+//@ func (*RelationTuple).FromInternal
+//@   props C04 C13
+//@   requires r != nil && rt != nil && (rt.Subject == nil || wfsubject(rt.Subject))
+//@   modifies r.Namespace, r.Object, r.Relation, r.SubjectID, r.SubjectSetNamespace, r.SubjectSetObject, r.SubjectSetRelation
+//@   ensures err == nil
+//@   ensures[C04] tuple-to-row: rt.Subject != nil ==> rowof(r, rt)
 
 //@ func (*Persister).GetRelationTuples
-//@   props C06 C07 C13
+//@   props C04 C06 C07 C13
 //@   requires p != nil && p.d != nil && wfquery(query) && ctx != nil
 //@   modifies db
 //@   ensures[C17] read-only: db == old(db)
@@ -66,17 +100,20 @@ package sql
 //@   ensures[C07] token-is-last-key: err == nil && nextPageToken != "" ==> nextPageToken == uuidstr(res[len(res)-1].ID) && len(res) == pagination.PerPage
 //@   ensures[C07] keyset-shape: err == nil ==> qlimit(sqlQuery) == pagination.PerPage + 1 && qordered(sqlQuery) && qafterset(sqlQuery) && qafter(sqlQuery) == pagination.LastID
 //@   ensures[C06] nid: err == nil ==> qnidset(sqlQuery) && qnid(sqlQuery) == netid(p, now(ctx))
+//@   ensures[C04] lists-what-the-query-selects: err == nil ==> predquery(sqlQuery, query)
 //@   loop 1 invariant len(internalRes) == $n && (isnil(internalRes) || fresh(internalRes))
 
 //@ func (*Persister).ExistsRelationTuples
-//@   props C06 C13
+//@   props C04 C06 C13
 //@   requires p != nil && p.d != nil && wfquery(query) && ctx != nil
 //@   modifies db
 //@   ensures[C17] read-only: db == old(db)
+//@   callsite (*Query).Exists requires[C04] asks-what-the-query-selects: predquery(sqlQuery, query)
 
 //@ func (*Persister).DeleteAllRelationTuples$1
-//@   props C05 C06 C13
+//@   props C04 C05 C06 C13
 //@   requires p != nil && wfquery(query)
+//@   callsite (*Query).Delete requires[C04] deletes-what-the-query-selects: predquery(sqlQuery, query)
 //@   callsite (*Persister).queryWithNetwork requires[C05] tx-context: $arg1 == ctx
 
 // ---- the raw-SQL traverser (C06 network binding, C07 cursor, C13 safety)
@@ -159,6 +196,7 @@ package sql
 //@ func buildInsert
 //@   props C04 C06 C13
 //@   noframe
+//@   opt dead-ok return "", nil, err
 //@   requires forall i in 0..len(rs) :: rs[i] != nil && (rs[i].Subject == nil || wfsubject(rs[i].Subject))
 //@   callsite Fprintf requires[C04] column-order: litcontains($arg1, "(shard_id, nid, namespace, object, relation, subject_id, subject_set_namespace, subject_set_object, subject_set_relation, commit_time) VALUES ")
 //@   ensures[C04] ten-arguments-per-row: err == nil ==> len(args) == 10 * len(rs)
